@@ -88,6 +88,33 @@ fn owned_ops(tc: &mut Tc<'_>, key: &mut Option<ThreadKey>, n: usize, variant: u3
 			leaked = true;
 		}
 	}
+	// The library's view of the locks must still agree with the audit table after operations that
+	// get `&mut` access: a try on the whole collection succeeds iff no member is (phantom-)held.
+	// (Not possible when the key went into the leaked guard.)
+	let any_held = (0..n).any(|k| (variant >> k) & 1 == 1) || leaked;
+	macro_rules! view_probe {
+		($c:expr, $what:expr) => {{
+			if let Some(k) = key.take() {
+				w.begin_call(0, Class::Harness, "view_probe", false);
+				match $c.try_lock(k) {
+					Ok(g) => {
+						if any_held && n > 0 {
+							tc.v("C17", "hold_state_changed", format!("{}: try_lock succeeded although a member is held - the lock no longer reflects the hold it had before the call", $what));
+						}
+						drop(g);
+						*key = ThreadKey::get();
+					}
+					Err(k) => {
+						if !any_held {
+							tc.v("C17", "hold_state_changed", format!("{}: try_lock refused although nothing is held", $what));
+						}
+						*key = Some(k);
+					}
+				}
+				w.end_call(0);
+			}
+		}};
+	}
 	match variant % 5 {
 		0 => {
 			let mut c = op!("Owned::new", OwnedLockCollection::new(ms));
@@ -97,6 +124,7 @@ fn owned_ops(tc: &mut Tc<'_>, key: &mut Option<ThreadKey>, n: usize, variant: u3
 				assert_eq!(v.len(), n);
 			}
 			let _ = op!("Owned::child_mut", c.child_mut().len());
+			view_probe!(c, "Owned after get_mut / child_mut");
 			op!("Owned::extend", c.extend(Vec::<M>::new()));
 			let inner = op!("Owned::into_inner", c.into_inner());
 			assert_eq!(inner.len(), n);
@@ -128,6 +156,7 @@ fn owned_ops(tc: &mut Tc<'_>, key: &mut Option<ThreadKey>, n: usize, variant: u3
 			}
 			let _ = op!("Retry::child_mut", c.child_mut().len());
 			let _ = op!("Retry::iter_mut", c.iter_mut().count());
+			view_probe!(c, "Retrying after get_mut / child_mut / iter_mut");
 			op!("Retry::extend", c.extend(Vec::<M>::new()));
 			let child = op!("Retry::into_child", c.into_child());
 			let c2: RetryingLockCollection<Vec<M>> = op!("Retry::from_iter", child.into_iter().collect());
